@@ -244,10 +244,11 @@ def check(wrapped):
         for rule in rules:
             pos = rule.get("position", "any")
             used = (set(cmap.values()) if pos in ("any", "column") else set()) | (set(tmap.values()) if pos in ("any", "table") else set())
-            if set(rule.get("names", [])) & used:
+            # identifiers are compared the way the engines compare them: SQLite (and unquoted SQL in general) folds case
+            if {n.lower() for n in rule.get("names", [])} & {u.lower() for u in used}:
                 skip_engines.add(engine)
             for pat in rule.get("patterns", []):
-                if any(re.fullmatch(pat, u) for u in used):
+                if any(re.fullmatch(pat, u, re.IGNORECASE) for u in used):
                     skip_engines.add(engine)
     info["skipped_engines"] = sorted(skip_engines)
     rc = rename_case(case, tmap, cmap)
